@@ -20,6 +20,7 @@ import os
 
 import vlib
 from props import config_common as cc
+from props import sozu_compose
 
 PID = "C07"
 
@@ -27,6 +28,8 @@ PID = "C07"
 def run(tier, replay=None):
     rep = vlib.Report(PID, tier)
     wd = vlib.workdir(PID)
+    # the composed leg (spec/Sozu.tla: main process + real workers): drift / rejected-leaves-no-trace across processes
+    sozu_compose.run_leg(rep, tier, PID, replay)
     bins = vlib.cargo_build(["replay_config"] + cc.drive_bins(worker=True))
     thorough = tier == "thorough"
     inv = ["TypeOK", "P_C07", "P_C07_Worker"]
